@@ -38,6 +38,7 @@ type Contract struct {
 	Panics   []*Clause // may-panic conditions (over the pre-state)
 	Modifies []ModTarget
 	GhostSets []GhostSet
+	XGhostSets []GhostSet // ghost updates executed when the function exits by a panic
 	NoMerge   bool
 	Stable    []ModTarget // functype: when the value is invoked, the heap differs from the enclosing function's entry only here
 	ModAny   bool // "modifies *": callers havoc everything (only for externs that run user code)
@@ -136,7 +137,7 @@ var (
 )
 
 var blockKeywords = map[string]bool{"func": true, "extern": true, "functype": true, "trusted": true, "loop": true, "ghost": true, "spec": true, "opaque": true, "impl": true, "guarded": true, "lemma": true}
-var clauseKeywords = map[string]bool{"requires": true, "ensures": true, "xensures": true, "defines": true, "panics": true, "modifies": true, "invariant": true, "decreases": true, "expect": true, "vars": true, "pure": true, "ghostset": true, "reveals": true, "uses": true, "nomerge": true, "stable": true}
+var clauseKeywords = map[string]bool{"requires": true, "ensures": true, "xensures": true, "defines": true, "panics": true, "modifies": true, "invariant": true, "decreases": true, "expect": true, "vars": true, "pure": true, "ghostset": true, "reveals": true, "uses": true, "nomerge": true, "stable": true, "xghostset": true}
 
 func splitList(s string) []string {
 	var out []string
@@ -481,7 +482,7 @@ func (ct *ContractTable) parseLines(lines []rawLine, pkg string) error {
 			default:
 				return errf("modifies outside a contract")
 			}
-		case "ghostset":
+		case "ghostset", "xghostset":
 			if curC == nil {
 				return errf("ghostset outside function contract")
 			}
@@ -497,7 +498,11 @@ func (ct *ContractTable) parseLines(lines []rawLine, pkg string) error {
 			if err != nil {
 				return errf("%v", err)
 			}
-			curC.GhostSets = append(curC.GhostSets, GhostSet{te, ve, rest})
+			if kw == "xghostset" {
+				curC.XGhostSets = append(curC.XGhostSets, GhostSet{te, ve, rest})
+			} else {
+				curC.GhostSets = append(curC.GhostSets, GhostSet{te, ve, rest})
+			}
 		case "expect":
 			if curC == nil {
 				return errf("expect outside function contract")
